@@ -42,6 +42,7 @@ class Executor(Base, ExprMixin, StmtMixin, CallMixin, StrMixin, SpecMixin):
         self.modstack = []
         self.objstate = {}
         self.loop_depth = 0
+        self.callee_envs = {}
 
     def sym_comprehension(self, *a):
         return self.unit.sym_comprehension(self, *a)
@@ -528,16 +529,30 @@ class Unit:
             rk = spec.ret
             result = None if rk in (None, "none") else ex.fresh(rk, "res_" + name.split(".")[-1])
             env["result"] = result
-            ex.old_stack.append((ex.old, ex.old_envs)) if hasattr(ex, "old_stack") else None
+            # the callee's locals / ghost variables its postconditions mention: existential witnesses
+            for lname, kind in c.types.items():
+                if lname in env or "." in lname:
+                    continue
+                env[lname] = result if lname in c.result_alias else ex.fresh(kind, "%s.%s" % (name.split(".")[-1], lname))
+            cu.bind_callee_locals(ex, env, bound)
+            saved_old = ex.old_envs
+            ex.old_envs = [dict(bound)]
             for label, cl in c.ensures.items():
                 cl = c.clause(cl)
                 if cl.finding:
                     continue        # a clause known to fail on this tree is not assumed of the callee
                 f = ex.with_envs([env], lambda: ex.spec_eval(cl.expr))
                 ex.assume(f)
+            ex.old_envs = saved_old
+            ex.callee_envs[name] = env
         finally:
             ex.unit = saved_unit
         return result
+
+    def bind_callee_locals(self, ex, env, bound):
+        """hook: bind locals of this (callee) contract that are defined by calls, e.g. words = splitter(ws(text))"""
+        if self.contract.setup_callee:
+            self.contract.setup_callee(ex, env, bound)
 
 
 class _Ns:
@@ -577,6 +592,9 @@ def run_path(unit: Unit, th, decisions):
                 raise GenError("parameter %s of %s has no kind hint" % (name, c.target))
             if kind == "callable":
                 env[name] = VFunc(name, "callee", c.calls.get(name))
+            elif kind.startswith("enumcase:"):
+                members = list(unit.enum_class(kind[9:]))
+                env[name] = members[ex.choose(len(members), "enumcase")]
             elif kind.startswith("obj:"):
                 env[name] = VObj(kind[4:])
             else:
